@@ -157,6 +157,28 @@ theorem lex_dq {as rest : List Rune} {l : LexSt} {acc : List Token} (h : as.all 
   rw [h1, lex_dq_content as _ [] l l.line acc h, lexLoop]
   simp [NextSt.heredocStart, rBS, rDQ, NextSt.mk']
 
+/-! ### simple backquoted strings in the lexer (a backslash is literal there) -/
+
+theorem lex_bq_content : ∀ (as rest v : List Rune) (l : LexSt) (tl : Nat) (acc : List Token), as.all bqCh = true →
+    lexLoop (as ++ rest) l { val := v, tokLine := tl, btQuoted := true } acc =
+      lexLoop rest l { val := v ++ as, tokLine := tl, btQuoted := true } acc
+  | [], _, _, _, _, _, _ => by simp
+  | c :: as, rest, v, l, tl, acc, h => by
+    simp only [List.all_cons, Bool.and_eq_true] at h
+    obtain ⟨h96, h10⟩ := bqCh_spec h.1
+    rw [List.cons_append, lexLoop]
+    have ih := lex_bq_content as rest (v ++ [c]) l tl acc h.2
+    simp [NextSt.heredocStart, rBS, rBQ, rNL, h96, h10]
+    rw [ih]; simp
+
+theorem lex_bq {as rest : List Rune} {l : LexSt} {acc : List Token} (h : as.all bqCh = true) :
+    lexLoop (rBQ :: (as ++ rBQ :: rest)) l {} acc = lexLoop rest l {} (acc ++ [⟨l.line, as, rBQ, []⟩]) := by
+  have h1 : lexLoop (rBQ :: (as ++ rBQ :: rest)) l {} acc
+      = lexLoop (as ++ rBQ :: rest) l { val := [], tokLine := l.line, btQuoted := true } acc := by
+    rw [lexLoop]; simp [NextSt.heredocStart, rBS, rBQ, rDQ, rHash, isSpace]
+  rw [h1, lex_bq_content as _ [] l l.line acc h, lexLoop]
+  simp [NextSt.heredocStart, rBS, rBQ, NextSt.mk']
+
 /-! ### the lexer over chunk lists -/
 
 /-- the word is a comment -/
@@ -171,15 +193,18 @@ def lexGood : (first afterCmt : Bool) → List Chunk → Bool
     c.sep.all wsCh && (first || !c.sep.isEmpty) && (!afterCmt || c.sep.head? == some rNL) &&
     (match c.word with
      | [] => false
-     | h :: t => (h == rHash && t.all cmtCh) || (h == rDQ && dqTail t) || (h :: t).all lexCh) &&
+     | h :: t => (h == rHash && t.all cmtCh) || (h == rDQ && dqTail t) || (h == rBQ && bqTail t) || (h :: t).all lexCh) &&
     lexGood false (isCmtW c.word) cs
 
 /-- the word is a double-quoted string -/
 def isDqW (w : List Rune) : Bool := w.head? == some rDQ
 
+/-- the word is a backquoted string -/
+def isBqW (w : List Rune) : Bool := w.head? == some rBQ
+
 /-- text and quote kind of the token a word gives -/
-def tokText (w : List Rune) : List Rune := if isDqW w then (w.drop 1).dropLast else w
-def tokQuote (w : List Rune) : Rune := if isDqW w then rDQ else 0
+def tokText (w : List Rune) : List Rune := if isDqW w || isBqW w then (w.drop 1).dropLast else w
+def tokQuote (w : List Rune) : Rune := if isDqW w then rDQ else if isBqW w then rBQ else 0
 
 /-- the tokens of a chunk list whose first separator starts on line `ln` (comments give none) -/
 def toksOf : Nat → List Chunk → List Token
@@ -192,6 +217,11 @@ theorem tokText_dq (as : List Rune) : tokText (rDQ :: (as ++ [rDQ])) = as := by
   simp [tokText, isDqW]
 
 theorem tokQuote_dq (t : List Rune) : tokQuote (rDQ :: t) = rDQ := by simp [tokQuote, isDqW]
+
+theorem tokText_bq (as : List Rune) : tokText (rBQ :: (as ++ [rBQ])) = as := by
+  simp [tokText, isBqW]
+
+theorem tokQuote_bq (t : List Rune) : tokQuote (rBQ :: t) = rBQ := by simp [tokQuote, isDqW, isBqW, rDQ, rBQ]
 
 /-- trailing white space, with or without a token in progress -/
 theorem lex_trail_fresh (trail : List Rune) (ln : Nat) (acc : List Token) (h : trail.all wsCh = true) :
@@ -294,7 +324,8 @@ theorem lex_chunks (trail : List Rune) (ht : trail.all wsCh = true) : ∀ (n : N
             subst hcm
             have hw' : w.all cmtCh = true := by
               have hd : (rHash == rDQ) = false := by decide
-              simp only [Bool.or_eq_true, Bool.and_eq_true, beq_self_eq_true, true_and, List.all_cons, hd,
+              have hd' : (rHash == rBQ) = false := by decide
+              simp only [Bool.or_eq_true, Bool.and_eq_true, beq_self_eq_true, true_and, List.all_cons, hd, hd',
                 Bool.false_and, Bool.false_eq_true, or_false] at hw
               rcases hw with hw | hw
               · exact hw
@@ -312,8 +343,9 @@ theorem lex_chunks (trail : List Rune) (ht : trail.all wsCh = true) : ∀ (n : N
               subst hcq
               have hd : dqTail w = true := by
                 have hl : lexCh rDQ = false := by decide
+                have hb : (rDQ == rBQ) = false := by decide
                 simp only [hne, Bool.false_and, Bool.false_or, beq_self_eq_true, Bool.true_and, List.all_cons, hl,
-                  Bool.or_false] at hw
+                  hb, Bool.or_false] at hw
                 exact hw
               obtain ⟨as, hwas, hall⟩ := dqTail_spec w hd
               subst hwas
@@ -322,10 +354,25 @@ theorem lex_chunks (trail : List Rune) (ht : trail.all wsCh = true) : ∀ (n : N
               rw [e2, lex_dq hall, ihA cs false _ _ hlen hrest]
               simp [toksOf, Chunk.nl, hcw, hic, tokText_dq, tokQuote_dq]
             · have hnq : (a == rDQ) = false := by simp [hcq]
-              simp only [hne, hnq, Bool.false_and, Bool.false_or, List.all_cons, Bool.and_eq_true] at hw
-              rw [lex_word_fresh hw.1 hw.2,
-                ihB cs (a :: w) (ln + countNL c.sep) (ln + countNL c.sep) acc hlen hrest (by simp [hw.1, hw.2]) (by simp)]
-              simp [toksOf, Chunk.nl, hcw, hic, tokText, tokQuote, isDqW, hcq]
+              by_cases hcb : a = rBQ
+              · -- a simple backquoted string: one quoted token, then a fresh state
+                subst hcb
+                have hd : bqTail w = true := by
+                  have hl : lexCh rBQ = false := by decide
+                  simp only [hne, hnq, Bool.false_and, Bool.false_or, beq_self_eq_true, Bool.true_and, List.all_cons, hl,
+                    Bool.or_false] at hw
+                  exact hw
+                obtain ⟨as, hwas, hall⟩ := bqTail_spec w hd
+                subst hwas
+                have e2 : rBQ :: (as ++ [rBQ]) ++ (flatten cs ++ trail) = rBQ :: (as ++ rBQ :: (flatten cs ++ trail)) := by
+                  simp [List.append_assoc]
+                rw [e2, lex_bq hall, ihA cs false _ _ hlen hrest]
+                simp [toksOf, Chunk.nl, hcw, hic, tokText_bq, tokQuote_bq]
+              · have hnb : (a == rBQ) = false := by simp [hcb]
+                simp only [hne, hnq, hnb, Bool.false_and, Bool.false_or, List.all_cons, Bool.and_eq_true] at hw
+                rw [lex_word_fresh hw.1 hw.2,
+                  ihB cs (a :: w) (ln + countNL c.sep) (ln + countNL c.sep) acc hlen hrest (by simp [hw.1, hw.2]) (by simp)]
+                simp [toksOf, Chunk.nl, hcw, hic, tokText, tokQuote, isDqW, isBqW, hcq, hcb]
     refine ⟨hA, ?_, ?_⟩
     · -- (B) for length n+1: the first separator is non-empty; its first character ends the token
       intro cs v ln tl acc hl hg hv hne
@@ -372,12 +419,14 @@ theorem kind_cmt_iff (c : Chunk) : (c.kind = .cmt) ↔ isCmtW c.word = true := b
     · rename_i h; rw [h]; simp [rClose, rHash]
     · split
       · simp_all
-      · split <;> simp_all
+      · split
+        · simp_all
+        · split <;> simp_all
 
 theorem wordOK_lex {c : Chunk} (hw : c.wordOK = true) :
     (match c.word with
      | [] => false
-     | h :: t => (h == rHash && t.all cmtCh) || (h == rDQ && dqTail t) || (h :: t).all lexCh) = true := by
+     | h :: t => (h == rHash && t.all cmtCh) || (h == rDQ && dqTail t) || (h == rBQ && bqTail t) || (h :: t).all lexCh) = true := by
   unfold Chunk.wordOK at hw
   simp only [Bool.or_eq_true, beq_iff_eq] at hw
   rcases hw with (hw | hw) | hw
@@ -389,8 +438,9 @@ theorem wordOK_lex {c : Chunk} (hw : c.wordOK = true) :
       rw [hcw] at hw
       simp only [Bool.or_eq_true, Bool.and_eq_true, beq_iff_eq, Bool.not_eq_true'] at hw
       simp only [Bool.or_eq_true, Bool.and_eq_true, beq_iff_eq]
-      rcases hw with (hw | hw) | hw
-      · exact Or.inl (Or.inl hw.1)
+      rcases hw with ((hw | hw) | hw) | hw
+      · exact Or.inl (Or.inl (Or.inl hw.1))
+      · exact Or.inl (Or.inl (Or.inr hw))
       · exact Or.inl (Or.inr hw)
       · exact Or.inr (pw_all _ _ hw)
 
@@ -724,6 +774,13 @@ theorem countNL_dqCh : ∀ (w : List Rune), w.all dqCh = true → countNL w = 0
     have := (dqCh_spec h.1).2.2
     simp [countNL, rNL, this, countNL_dqCh w h.2]
 
+theorem countNL_bqCh : ∀ (w : List Rune), w.all bqCh = true → countNL w = 0
+  | [], _ => rfl
+  | c :: w, h => by
+    simp only [List.all_cons, Bool.and_eq_true] at h
+    have := (bqCh_spec h.1).2
+    simp [countNL, rNL, this, countNL_bqCh w h.2]
+
 /-- a word that is not a comment gives a token without line breaks -/
 theorem lexGood_word {first ac : Bool} {c : Chunk} {cs : List Chunk} (hg : lexGood first ac (c :: cs) = true)
     (hc : isCmtW c.word = false) :
@@ -744,15 +801,26 @@ theorem lexGood_word {first ac : Bool} {c : Chunk} {cs : List Chunk} (hg : lexGo
     by_cases hq : h = rDQ
     · subst hq
       have hl : lexCh rDQ = false := by decide
-      simp only [hnh, Bool.false_and, Bool.false_or, beq_self_eq_true, Bool.true_and, List.all_cons, hl,
+      have hb : (rDQ == rBQ) = false := by decide
+      simp only [hnh, Bool.false_and, Bool.false_or, beq_self_eq_true, Bool.true_and, List.all_cons, hl, hb,
         Bool.or_false] at hw
       obtain ⟨as, hwas, hall⟩ := dqTail_spec t hw
       subst hwas
       rw [tokText_dq, tokQuote_dq]
       simp [Token.numLineBreaks, countNL_dqCh _ hall, rLT, rDQ]
     · have hnq : (h == rDQ) = false := by simp [hq]
-      simp only [hnh, hnq, Bool.false_and, Bool.false_or] at hw
-      simp [Token.numLineBreaks, tokText, tokQuote, isDqW, hq, countNL_lexCh _ hw, rLT]
+      by_cases hbq : h = rBQ
+      · subst hbq
+        have hl : lexCh rBQ = false := by decide
+        simp only [hnh, hnq, Bool.false_and, Bool.false_or, beq_self_eq_true, Bool.true_and, List.all_cons, hl,
+          Bool.or_false] at hw
+        obtain ⟨as, hwas, hall⟩ := bqTail_spec t hw
+        subst hwas
+        rw [tokText_bq, tokQuote_bq]
+        simp [Token.numLineBreaks, countNL_bqCh _ hall, rLT, rBQ]
+      · have hnb : (h == rBQ) = false := by simp [hbq]
+        simp only [hnh, hnq, hnb, Bool.false_and, Bool.false_or] at hw
+        simp [Token.numLineBreaks, tokText, tokQuote, isDqW, isBqW, hq, hbq, countNL_lexCh _ hw, rLT]
 
 theorem groupingFrom_toksOf : ∀ (cs : List Chunk) (ln : Nat) (p : Token) (acc ac : Bool), p.numLineBreaks = 0 →
     p.line ≤ ln → acc = decide (p.line < ln) → lexGood false ac cs = true →
@@ -850,7 +918,7 @@ theorem tokenize_on_chunks {lead trail : List Rune} {c : Chunk} {cs : List Chunk
   -- the input is non-empty and does not start with a byte-order mark
   have hwd : (match c.word with
      | [] => false
-     | h :: t => (h == rHash && t.all cmtCh) || (h == rDQ && dqTail t) || (h :: t).all lexCh) = true := by
+     | h :: t => (h == rHash && t.all cmtCh) || (h == rDQ && dqTail t) || (h == rBQ && bqTail t) || (h :: t).all lexCh) = true := by
     simp only [lexGood, Bool.and_eq_true] at hlg; exact hlg.1.2
   obtain ⟨a, w, hw, habom⟩ : ∃ a w, c.word = a :: w ∧ a ≠ rBOM := by
     cases hcw : c.word with
@@ -859,7 +927,8 @@ theorem tokenize_on_chunks {lead trail : List Rune} {c : Chunk} {cs : List Chunk
       refine ⟨a, w, rfl, ?_⟩
       rw [hcw] at hwd
       simp only [Bool.or_eq_true, Bool.and_eq_true, beq_iff_eq, List.all_cons] at hwd
-      rcases hwd with (hwd | hwd) | hwd
+      rcases hwd with ((hwd | hwd) | hwd) | hwd
+      · rw [hwd.1]; decide
       · rw [hwd.1]; decide
       · rw [hwd.1]; decide
       · exact (lexCh_spec hwd.1).2.2.2.2.2.2.1
